@@ -126,6 +126,19 @@ func c18FailedReload(c *vlib.Ctx) {
 			_ = a.WriteConfig(strings.Replace(next, "raw:atok", "file:"+secretFile, 1))
 			return nil
 		}},
+		{"api_tokens_changed_and_route_hmac_env_unset", func(a *l2.App, next string) func() {
+			// the API tokens of the new file load fine, a secret loaded later does not
+			os.Unsetenv("VERIF_C18_UNSET_LATE")
+			t := strings.Replace(strings.Replace(next, "raw:gtok", "raw:gtokNEW", 1), "raw:atok", "raw:atokNEW", 1)
+			_ = a.WriteConfig(t + "/latesecret { queue { backend memory }\n auth hmac env:VERIF_C18_UNSET_LATE\n pull { path /platesecret } }\n")
+			return nil
+		}},
+		{"api_tokens_changed_and_route_token_file_missing", func(a *l2.App, next string) func() {
+			_ = os.Remove(secretFile)
+			t := strings.Replace(strings.Replace(next, "raw:gtok", "raw:gtokNEW", 1), "raw:atok", "raw:atokNEW", 1)
+			_ = a.WriteConfig(t + "/latetoken { queue { backend memory }\n pull { path /platetoken\n  auth token file:" + secretFile + " } }\n")
+			return nil
+		}},
 		{"restart_required_listener_change", func(a *l2.App, next string) func() {
 			_ = a.WriteConfig(strings.Replace(next, "listen 127.0.0.1:0", "listen 127.0.0.9:0", 1))
 			return nil
@@ -775,6 +788,7 @@ func C18(c *vlib.Ctx) {
 	c18ManagementAfterRefusedReload(c)
 	c18SettingEdits(c)
 	c18SecretRotation(c)
+	deliverEdits(c)
 	if c.Counter("management_mutations_applied") == 0 || c.Counter("management_mutations_refused") == 0 {
 		c.Inconclusive("C18 management part observed no applied or no refused mutation")
 	}
